@@ -56,11 +56,11 @@ theorem dropFn_served {k c k' : Nat} {t : Int} {s : Sim} (h : Served k c t s) (h
     simp [this]
   · exact fun _ hx => hx
 
-theorem doCmd_served {k c : Nat} {t : Int} {s : Sim} (h : Served k c t s) (cm : Cmd)
-    (h1 : cm ≠ .cancel k) (h2 : cm ≠ .drop c) : Served k c t (doCmd s cm) := by
+theorem doCmd1_served {k c : Nat} {t : Int} {s : Sim} (h : Served k c t s) (cm : Cmd)
+    (h1 : cm ≠ .cancel k) (h2 : cm ≠ .drop c) : Served k c t (doCmd1 s cm) := by
   cases cm with
   | schedAbs t' p a =>
-    simp only [doCmd, schedAbs]
+    simp only [doCmd1, schedAbs]
     split
     · rename_i s' hs
       split at hs
@@ -70,7 +70,7 @@ theorem doCmd_served {k c : Nat} {t : Int} {s : Sim} (h : Served k c t s) (cm : 
         · simp only [Except.ok.injEq] at hs; subst hs; exact pushUser_served h _ _ _
     · exact h
   | schedRel d p a =>
-    simp only [doCmd, schedRel]
+    simp only [doCmd1, schedRel]
     split
     · rename_i s' hs
       split at hs
@@ -80,12 +80,19 @@ theorem doCmd_served {k c : Nat} {t : Int} {s : Sim} (h : Served k c t s) (cm : 
         · simp only [Except.ok.injEq] at hs; subst hs; exact pushUser_served h _ _ _
     · exact h
   | again k' d p =>
-    rcases doCmd_again_cases s k' d p with he | ⟨a, _, _, he⟩ <;> rw [he]
+    rcases doCmd1_again_cases s k' d p with he | ⟨a, _, _, he⟩ <;> rw [he]
     · exact h
     · exact pushUser_served h _ _ _ _
   | cancel k' => exact cancelTag_served h (fun hk => h1 (by rw [hk]))
   | drop k' => exact dropFn_served h (fun hk => h2 (by rw [hk]))
   | halt => exact h
+  | raise x => exact h
+
+theorem doCmd_served {k c : Nat} {t : Int} {s : Sim} (h : Served k c t s) (cm : Cmd)
+    (h1 : cm ≠ .cancel k) (h2 : cm ≠ .drop c) : Served k c t (doCmd s cm) := by
+  unfold doCmd; split
+  · exact h
+  · exact doCmd1_served h cm h1 h2
 
 theorem foldl_doCmd_served {k c : Nat} {t : Int} {s : Sim} (h : Served k c t s) (cs : List Cmd) (hs : Spares k c cs) :
     Served k c t (cs.foldl doCmd s) := by
@@ -126,7 +133,9 @@ theorem runUntil_progsSpare {k c f : Nat} {s s' : Sim} {T : Int} (h : ProgsSpare
     · simp only [Option.some.injEq] at hr; subst hr; exact h
     · rename_i e rest hp
       split at hr
-      · exact ih (exec_progsSpare (k := k) (c := c) (s := popped s e rest) h e) hr
+      · split at hr
+        · simp only [Option.some.injEq] at hr; subst hr; exact exec_progsSpare (k := k) (c := c) (s := popped s e rest) h e
+        · exact ih (exec_progsSpare (k := k) (c := c) (s := popped s e rest) h e) hr
       · simp only [Option.some.injEq] at hr; subst hr; exact h
 
 theorem runNext_progsSpare {k c : Nat} {s : Sim} (h : ProgsSpare k c s) : ProgsSpare k c (runNext s) := by
@@ -193,7 +202,9 @@ theorem runUntil_served {k c : Nat} {t : Int} {f : Nat} {s s' : Sim} {T : Int} (
       · exact Or.inr ⟨i, hi⟩
     · rename_i e₀ rest hp
       split at hr
-      · exact ih (popExec_served h hps hp) (exec_progsSpare (s := popped s e₀ rest) hps e₀) hr
+      · split at hr
+        · simp only [Option.some.injEq] at hr; subst hr; exact popExec_served h hps hp
+        · exact ih (popExec_served h hps hp) (exec_progsSpare (s := popped s e₀ rest) hps e₀) hr
       · simp only [Option.some.injEq] at hr; subst hr
         obtain ⟨hd, hl⟩ := popLive_decomp hp
         rcases h with ⟨e, he, h1, h2, hc, h3, h4, h5⟩ | ⟨i, hi⟩
@@ -226,6 +237,7 @@ inductive ReachableSparing (k c : Nat) (s : Sim) : Sim → Prop where
   | until {s' s'' : Sim} {f : Nat} {T : Int} : ReachableSparing k c s s' → s'.now ≤ T → runUntil f s' T = some s'' →
       ReachableSparing k c s s''
   | next {s' : Sim} : ReachableSparing k c s s' → ReachableSparing k c s (runNext s')
+  | caught {s' : Sim} : ReachableSparing k c s s' → ReachableSparing k c s (caught s')
 
 theorem reachableSparing_from {k c : Nat} {s s' : Sim} (h : ReachableSparing k c s s') : ReachableFrom s s' := by
   induction h with
@@ -233,6 +245,7 @@ theorem reachableSparing_from {k c : Nat} {s s' : Sim} (h : ReachableSparing k c
   | cmd c _ _ _ ih => exact .cmd c ih
   | «until» _ hT hr ih => exact .until ih hT hr
   | next _ ih => exact .next ih
+  | caught _ ih => exact .caught ih
 
 theorem served_stays {k c : Nat} {t : Int} {s s' : Sim} (h : Served k c t s) (hps : ProgsSpare k c s)
     (hr : ReachableSparing k c s s') : Served k c t s' ∧ ProgsSpare k c s' := by
@@ -241,6 +254,7 @@ theorem served_stays {k c : Nat} {t : Int} {s s' : Sim} (h : Served k c t s) (hp
   | cmd c _ h1 h2 ih => exact ⟨doCmd_served ih.1 c h1 h2, doCmd_progsSpare ih.2 c⟩
   | «until» _ _ hrun ih => exact ⟨runUntil_served ih.1 ih.2 hrun, runUntil_progsSpare ih.2 hrun⟩
   | next _ ih => exact ⟨runNext_served ih.1 ih.2, runNext_progsSpare ih.2⟩
+  | caught _ ih => exact ⟨ih.1, ih.2⟩
 
 /-- a freshly scheduled user event is served -/
 theorem pushUser_serves (s : Sim) (t : Int) (p a : Nat) (c : Option Nat := none) :
